@@ -225,6 +225,11 @@ def getSuggestions (cfg : Cfg) (fuel : Nat) (h : Handle) (count : Nat) (override
 def protoTrial (params : Nat) (state : TState) (final : Option Meas) (md : MD) : Trial :=
   { id := 0, state := state, client := "", params := params, meas := [], final := final, reason := "", md := md }
 
+/-- the status `TrialConverter.to_proto` gives a `vz.Trial` that was completed with a measurement / not at all -/
+def addedState : Option Meas → TState
+  | some _ => .succeeded
+  | none => .active
+
 /-- `CompleteTrialRequest(name, trial_infeasible = infeasibility_reason is not None,
     infeasible_reason = infeasibility_reason)` (+ `final_measurement` when one is given) -/
 def completeReq (h : Handle) (id : Nat) (m : Option Meas) (reason : Option String) : Req :=
@@ -262,7 +267,7 @@ def clientExec (cfg : Cfg) (fuel : Nat) (h : Handle) (c : Call) (db : DB) : Out 
     | none =>
       if !inSpace then { obs := .exc .valueError, reqs := [r1], db := x.2 } else
       let r2 := Req.createTrial h.owner h.sid
-        (protoTrial params (match final with | some _ => .succeeded | none => .active) final [])
+        (protoTrial params (addedState final) final [])
       let y := step cfg x.2 r2
       { obs := passing (fun | .trial t => .handle t.id | _ => .exc .other) y.1, reqs := [r1, r2], db := y.2 }
   | .getTrial id =>
